@@ -63,6 +63,7 @@ class SimWorld:
         self.notes = {}
         self.on_event = None     # f(kind, res_name, request id, now, data) for model-driven checks
         self.release_of = {}     # id(request) -> Release event created for it
+        self.batching = False    # several reports describe one instant: compare after the last
         self.events = {}         # manual events by name (C18)
         self.labels = {}         # id(event) -> member label (events pinned in self.pinned)
         self.pinned = []
@@ -447,6 +448,9 @@ class SimWorld:
                                       preempt=op.get("preempt", True))
             data = (op.get("priority", 0), op.get("preempt", True))
             self.track(request, op["id"], op["res"], "request", name, data)
+            if op.get("nested"):
+                yield from self._request_nested(name, op, res, request)
+                return
             if op.get("ctx"):
                 yield from self._request_ctx(name, op, res, request)
                 return
@@ -503,6 +507,57 @@ class SimWorld:
             self.track(event, op["id"] + ".rel", op["res"], "release", name, op["id"])
             yield event
             self.log(name, "release.done", op["res"], op["id"])
+
+    def _request_nested(self, name, op, res, request):
+        """Two slots held by one process in nested `with` blocks; an Interrupt (being preempted off
+        one of them) leaves both blocks before it is handled: each block gives its slot back."""
+        inner = op["nested"]
+        inner_request = None
+        try:
+            with request:
+                yield request
+                self.log(name, "request.done", op["res"], op["id"])
+                inner_request = res.request(priority=inner.get("priority", 0),
+                                            preempt=inner.get("preempt", True))
+                self.track(inner_request, inner["id"], op["res"], "request", name,
+                           (inner.get("priority", 0), inner.get("preempt", True)))
+                with inner_request:
+                    yield inner_request
+                    self.log(name, "request.done", op["res"], inner["id"])
+                    yield self.env.timeout(inner.get("hold", 1))
+                    self.log(name, "hold-", op["res"], inner["id"])
+        except SimInterrupt as err:
+            self.log(name, "interrupted", self.cause(err.cause), op["id"])
+        # both __exit__s have run by now (the inner one first): report what they did in that
+        # order; the states are compared after the last report only
+        reports = []
+        for req, rid in ((inner_request, inner["id"]), (request, op["id"])):
+            if req is None:
+                continue
+            if not req.triggered:
+                reports.append(("cancel", req, rid, None))
+                continue
+            event = self.release_of.pop(id(req), None)
+            if event is None:
+                self.monitor_violations.append((
+                    "with-block-kept-slot", "%s left `with request` (%s) at t=%r with the request "
+                    "granted, but it was neither released nor cancelled" % (name, rid,
+                                                                             self.env.now)))
+            else:
+                reports.append(("release", req, rid, event))
+        for index, (what, req, rid, event) in enumerate(reports):
+            self.batching = index < len(reports) - 1
+            if what == "cancel":
+                self.log(name, "cancel", op["res"], rid, False)
+                if self.on_event:
+                    self.on_event("cancel", op["res"], rid, None, name, None)
+            else:
+                self.track(event, rid + ".rel", op["res"], "release", name, rid)
+        self.batching = False
+        for what, req, rid, event in reports:
+            if what == "release":
+                yield event
+                self.log(name, "release.done", op["res"], rid)
 
     @staticmethod
     def _preq(res, op):
